@@ -95,6 +95,26 @@ def cases(rng, tier, stats):
                 out.append(prog_case("print-history", prog, info={"statement": how, "value": kname, "repetitions": reps}))
                 nh += 1
     stats["print_history_programs"] = nh
+    # the value is computed completely, THEN rendered: print statements whose operand contains calls that print, that mutate a list
+    # which is also an earlier element / field of the value, or that fail — through both print statements, for list and record
+    # literals, concatenations, nested literals and arguments of a call
+    step = ("func", "ধাপ", ["n"], [("print", G.bin_("+", G.s("ধাপ "), G.call("_স্ট্রিং", G.var("n")))), ("return", G.bin_("*", G.var("n"), G.num(2)))])
+    grow = ("func", "বাড়াও", ["l", "v"], [("expr", G.call("_লিস্ট-পুশ", G.var("l"), G.var("v"))), ("return", G.var("v"))])
+    fail = ("func", "ভাঙো", [], [("expr", G.call("_এরর", G.s("ইচ্ছাকৃত"))), ("return", G.num(0))])
+    shapes = [lambda: G.lst(G.num(1), G.call("ধাপ", G.num(2)), G.call("ধাপ", G.num(3))),
+              lambda: G.rec((G.s("a"), G.call("ধাপ", G.num(1))), (G.s("b"), G.lst(G.call("ধাপ", G.num(2))))),
+              lambda: G.lst(G.var("ভাগ"), G.call("বাড়াও", G.var("ভাগ"), G.num(7)), G.var("ভাগ")),
+              lambda: G.bin_("+", G.lst(G.call("ধাপ", G.num(4))), G.lst(G.var("ভাগ"), G.call("বাড়াও", G.var("ভাগ"), G.num(8)))),
+              lambda: G.lst(G.s("শুরু"), G.num(1), G.call("ভাঙো"), G.call("ধাপ", G.num(9))),
+              lambda: G.lst(G.lst(G.call("ধাপ", G.num(5)), G.lst(G.call("ধাপ", G.num(6)))), G.call("ধাপ", G.num(7))),
+              lambda: G.call("_লিস্ট-লেন", G.lst(G.call("ধাপ", G.num(1)), G.call("ধাপ", G.num(2))))]
+    ne = 0
+    for k, mk in enumerate(shapes):
+        for stmt in ("print", "printn"):
+            prog = [step, grow, fail, ("decl", "ভাগ", G.lst(G.num(0))), ("print", G.s("আগে")), (stmt, mk()), ("print", G.s("")), ("print", G.var("ভাগ")), ("print", G.s("পরে"))]
+            out.append(prog_case("print-with-effects", prog, info={"shape": k, "statement": stmt}))
+            ne += 1
+    stats["print_with_effects"] = ne
     stats["programs"] = n
     stats["with_depth_ge_2"] = deep
     return out
